@@ -1,7 +1,67 @@
-//! KeltnerChannel — reference model (TODO).
+//! Keltner Channel. Doc (and <https://en.wikipedia.org/wiki/Keltner_channel>):
+//!   middle line = MA(source) (`ma`, "Middle moving average"), the bounds lie `sigma` ("True range
+//!   multiplier") average true ranges above / below it:
+//!     upper = MA(source) + sigma * ATR,  lower = MA(source) - sigma * ATR,
+//!   TR = max(high - low, |high - previous close|, |low - previous close|).
+//! 3 values (documented list): `upper bound`, `source` value, `lower bound`.
+//! 1 signal: `source` goes above the `upper bound`: full buy; `source` goes under the `lower bound`:
+//!   full sell; otherwise no signal.
 use super::*;
 
-/// returns None until the reference is written
-pub fn make(_cfg: &Cfg, _c0: &RC) -> Option<Box<dyn IndRef>> {
-	None
+#[derive(Clone)]
+pub struct Keltner {
+	src: String,
+	sigma: f64,
+	ma: Box<dyn rm::RefVV>,
+	atr: rm::Fir,
+	prev_close: f64,
+	above: CrossD,
+	under: CrossD,
+}
+
+pub fn make(cfg: &Cfg, c0: &RC) -> Option<Box<dyn IndRef>> {
+	let src = cfg.src("source");
+	let sigma = cfg.float("sigma");
+	let s0 = source(c0, &src);
+	let (_, period) = cfg.ma("ma");
+	// true range of the constant prehistory: every candle is c0 and follows a close of c0
+	let tr0 = c0.tr(c0.c);
+	// prehistory: middle = source, bounds = source ± sigma * tr0
+	let d0 = sigma * tr0.v;
+	Some(Box::new(Keltner {
+		ma: cfg.ma_ref("ma", s0),
+		// † follows the implementation: the documentation does not say how the true range is averaged
+		// (Wikipedia names several variants); the implementation uses a simple moving average over the
+		// period of `ma`
+		atr: rm::Fir::new(rm::w_sma(period), tr0),
+		prev_close: c0.c,
+		// previous differences in the prehistory: source - upper = -sigma*tr0, source - lower = +sigma*tr0
+		above: CrossD::new(-d0),
+		under: CrossD::new(d0),
+		src,
+		sigma,
+	}))
+}
+
+impl IndRef for Keltner {
+	fn values(&mut self, c: &RC) -> Vec<Q> {
+		let s = source(c, &self.src);
+		let tr = c.tr(self.prev_close);
+		self.prev_close = c.c;
+		let m = self.ma.stepq(s);
+		let atr = self.atr.step(tr);
+		let upper = m + atr.scale(self.sigma);
+		let lower = m - atr.scale(self.sigma);
+		// † follows the implementation: the documentation lists (upper bound, source, lower bound); the
+		// implementation returns (source, upper bound, lower bound). The slots are compared in the
+		// implementation's order (reported as a discrepancy).
+		vec![s, upper, lower]
+	}
+	fn signals(&mut self, _c: &RC, own: &[f64]) -> Vec<Sig> {
+		let (s, upper, lower) = (own[0], own[1], own[2]);
+		let up = self.above.above(s, upper);
+		let down = self.under.under(s, lower);
+		vec![sig_sign(up as i32 - down as i32)]
+	}
+	indref!(Keltner);
 }
